@@ -49,7 +49,9 @@ PROPS = {
         native={'apply_create_node_multi_label': ['c18_node_table_spill'], 'write_i2e_record': ['c18_node_table_spill'],
                 'make_room_for_next_record': ['c18_node_table_spill']},
         native_all=['c18_node_table_spill'],
-        level_text='TBD', level_note='TBD', technique='TBD', design_ref='DESIGN.md §4 C18',
+        level_text='Proof of a frame condition, for every page id, every bitmap state and every node id, over a trusted positional-file model: Verus proves from the real bodies that the allocator (Bitmap::{get_bit,set_bit}, Pager::{allocate_page, allocate_run, ensure_allocated, free_page, write_page, read_page, flush_meta_and_bitmap, set_*}) keeps its representation invariant, hands out only pages that were free, frees exactly the page asked for, and changes no byte of any other allocated data page; and that the structures checked against those contracts (write_blob_pages of the segment store, BTree::create, the node table: i2e_location, write_i2e_record, IdMap::make_room_for_next_record incl. the relocation loops, IdMap::apply_create_node_multi_label) change no byte of any page that was allocated before the call and is not their own (frame_ok). Kani proves the bit-level laws of the bitmap, the meta-page round trip and node-table addressing (all u64 ids, no overlap) on the compiled crate.',
+        level_note="Not decided: the write loops of B-tree splits (BTree::insert / insert_into_parent / build_from_sorted_entries), BlobStore::write_direct (iterator adapters: chunks/rev), IndexCatalog::{open_or_create,get_or_create,flush}, HNSW stores, statistics and compaction orchestration: they obey the discipline only in so far as every page they obtain comes from Pager::allocate_page, whose contract is proved. Bitmap::find_free_in_range is `(start..end).find(closure)`, which Verus cannot ingest: its contract is assumed in the Verus unit on the strength of std's Iterator::find semantics and is checked by Kani on the compiled code only for windows of <= 8 (quick) / <= 16 (thorough) ids near id 0 (labelled bounded, not counted). Trusted: positional file model (pread/pwrite loops of pager.rs as v_read_exact_at / v_write_all_at; set_len extends with zeros; fsync not modelled), `&File` writes modelled as `&mut File` (interior mutability of the OS file), 64-bit usize, IdMap invariant `no start page => no records` (established by load on a consistent meta page, preserved by the proved function). Verus gives no counterexample; on a failed node-table obligation the driver runs the native scenario c18_node_table_spill (Pager/IdMap/BlobStore public API) against the tree under test.",
+        technique='contract-based deductive verification (Verus frame contracts on mechanically extracted allocator and client code over an abstract page-store view; Kani full-domain harnesses for bit-level and addressing laws)', design_ref='DESIGN.md §4 C18',
     ),
     'C28': dict(
         title='Vacuum preserves the database',
@@ -60,21 +62,27 @@ PROPS = {
                 'mark_reachable_pages': ['c28_vacuum_after_compact'], 'mark_blob_chain': ['c28_vacuum_after_compact'],
                 'read_direct': ['c28_vacuum_after_compact']},
         native_all=['c28_vacuum_after_compact'],
-        level_text='TBD', level_note='TBD', technique='TBD', design_ref='DESIGN.md §4 C28',
+        level_text='Proof, reachability scope, for every list length and every chain length, over the page-store view of unit c18_pager: Verus proves from the real bodies that csr::encode_meta writes exactly the segment-meta format spec (magic, ids, lengths, four page counts at 64..80, four page lists from 80), that vacuum::mark_csr_segment_pages on any page holding that format marks every non-zero page id of all four lists and fails only on I/O or an invalid layout, and - as a lemma over the two contracts - that the marker covers everything the writer recorded; that vacuum::mark_blob_chain marks every page of a blob chain up to its terminator and BlobStore::read_direct returns a function of exactly those pages, with a lemma that a copy agreeing on those pages yields the same chain and bytes; and that vacuum::mark_reachable_pages keeps the two header pages, every page of the node table (page of record id for all id < len), the catalog page, the statistics chain and, for every segment of the manifest, its meta page and all four page lists.',
+        level_note='Not decided: B-tree page marking (BTree::mark_reachable_pages over index, HNSW and property trees - stands in mark_reachable_pages as two stubs that only say the set never shrinks), Pager::write_vacuum_copy (iterates a BTreeSet and writes a second file: bitmap/next_page_id computation and page copy are not under contract), scan_wal_roots (which manifest/roots are chosen), the rename dance of vacuum_in_place and post-vacuum usability; those are exercised only by the native scenario c28_vacuum_after_compact, which is a witness generator, not a proof. Termination of the two chain walks is not proved (cycles are detected at run time by the marker, not by the reader). Trusted: Pager::read_page contract (proved in unit c18_pager), std::io::Cursor<&mut [u8]>::write_all as a sequential writer, BTreeSet insert, u64::div_ceil, page lists shorter than 2^28 entries (keeps `needed` from overflowing). A `continue` in the segment loop is rewritten mechanically into a guarded block (Verus for-loops do not support continue).',
+        technique='contract-based deductive verification (Verus: writer and marker proved against one shared format spec + agreement lemmas; chain walks against one chain spec)', design_ref='DESIGN.md §4 C28',
     ),
     'C20': dict(
         title='ORDER BY sorts and SKIP/LIMIT slice it',
         kani=['c20_order'],
         verus=[],
         pairs={},
-        level_text='TBD', level_note='TBD', technique='TBD', design_ref='DESIGN.md §4 C20',
+        level_text="Proof that the ORDER BY comparator is a total preorder on scalar values, complete over all 64-bit payloads: Kani proves on the compiled nervusdb-query crate that order_compare / order_compare_non_null is antisymmetric-total (cmp(a,b) == reverse(cmp(b,a)), reflexive) for every pair of kinds among Null, Bool, Int, Float (incl. NaN, +-0, +-inf), DateTime, NodeId, ExternalId, EdgeKey; transitive, with consistent equivalence classes, for every Int/Float kind triple (eight harnesses) and inside every non-numeric rank class; and that values of different rank classes are ordered by rank alone. std's stable sort_by and Iterator::skip/take then yield a sorted permutation and positions s..s+l (their documented contract, whose proviso - a total preorder - is what is proved).",
+        level_note='Not decided: strings (compare_strings_with_temporal parses both sides with chrono, which CBMC cannot ingest; date-like versus plain strings are a known weak spot of the design and are not checked), lists and maps as sort keys, the per-key direction handling and row plumbing of execute_order_by / execute_skip / execute_limit (boxed iterator chains; trusted to pass the comparator to sort_by and to call skip/take). Trusted: std sort_by / skip / take. Kani: termination not proved; enum tags are enumerated concretely, payloads are symbolic.',
+        technique='contract-based deductive verification (Kani harnesses on the real comparator functions, full 64-bit domain per kind tuple; total-preorder laws as the contract std::sort_by requires)', design_ref='DESIGN.md §4 C20',
     ),
     'C23': dict(
         title='Expression evaluation obeys Cypher laws',
         kani=['c23_equality', 'c23_compare', 'c23_numeric', 'c23_arith'],
         verus=[],
         pairs={},
-        level_text='TBD', level_note='TBD', technique='TBD', design_ref='DESIGN.md §4 C23',
+        level_text='Proof of the comparison, equality and arithmetic laws on the functions the operator arms dispatch to, complete over all 64-bit payloads: Kani proves on the compiled crate that cypher_equals and compare_values (with the four closures the <, <=, >, >= arms pass) return only true/false/null, return null exactly when an operand is null (scalars), that = is reflexive off NaN, symmetric and transitive across Int/Float in every kind triple, that a<b <=> b>a, a<=b <=> a<b or a=b, a>=b <=> a>b or a=b, exclusivity and trichotomy off NaN, all-false on NaN, agreement of < with the ORDER BY comparator, exactness of compare_i64_f64 on integers and half-integers; that numeric_binop (+ - *), numeric_div and numeric_mod return the exact Int when it is representable and otherwise follow the one rule (Float of the operation; i64::MIN / -1 is Float; zero divisor is null), for every pair of i64; that Null operands give Null and Int/Float mixes give Float for + - * / %; and that add/subtract/multiply/divide_values hand exactly their operands to that kernel.',
+        level_note='Not decided: the AND/OR/XOR/NOT truth tables, De Morgan and unary minus - those arms are inline in the 500-line generic evaluate_expression_value, which neither verifier can ingest (measured: no CBMC result in 20 min on two-level templates); a change confined to those arms is not noticed. Strings, lists and maps in comparisons are bounded (thorough tier, len <= 2) or not covered; numeric_pow is covered for kinds only. Value of Int/Int and Int%Int is checked against truncated division for |operands| < 2^15 (labelled bounded) and for result kind on the full domain. Kani: termination not proved.',
+        technique='contract-based deductive verification (Kani harnesses and one stub-based delegation contract on the real evaluator helper functions, full 64-bit domain per function x kind tuple)', design_ref='DESIGN.md §4 C23',
     ),
 }
 
